@@ -69,6 +69,14 @@ CHECKS = {
         "Trusted: NumPy cumsum in the model; relations that re-associate sums use rtol 1e-9 (exact for integer data).",
         "DESIGN.md 4/C09",
     ),
+    "C10": (
+        "Hypothesis-generated metric registries vs validity predicate (set of acceptable metrics) + reference integrate/average/derivative formulas",
+        "Generated-input search over registries, positions and requested axis sets; because several answers can be correct the "
+        "oracle is a validity predicate built from the statement with the reference interpolation of C01; derived operations are "
+        "checked against formulas using the metric shown acceptable.",
+        "Trusted: reference interpolation (C01 model), xarray broadcasting in the expected-value formulas.",
+        "DESIGN.md 4/C10",
+    ),
     "C15": (
         "bounded exhaustive enumeration + all single-character corruptions + Hypothesis, vs own grammar recogniser and canonical form",
         "Exhaustive over the bounded grammar (>=1e5 strings quick, >1e6 thorough) and every single-character corruption of small "
@@ -76,6 +84,13 @@ CHECKS = {
         "with xgcm's regular expressions.",
         "Trusted: the recogniser's reading of the statement; strings the statement is silent about are skipped and counted.",
         "DESIGN.md 4/C15",
+    ),
+    "C16": (
+        "Hypothesis stateful (rule-based) machine over registration histories vs slot-map model + one-at-a-time replay",
+        "Model-based stateful testing: histories of constructor metrics, batched set_metrics calls (with overwrite/refusals) and "
+        "lookups; invariant after every step; whole histories shrink as one value and are replayed from JSON without Hypothesis.",
+        "Trusted: the slot-map model. Reads grid._metrics (read-only introspection).",
+        "DESIGN.md 4/C16",
     ),
     "C17": (
         "exhaustive enumeration (625 tables; all 1- and 2-edit neighbours of base tables) + Hypothesis random tables, vs reciprocity predicate",
